@@ -121,3 +121,14 @@ def resizeBytes (B : Nat) (old_size new_size offset : Int) : FileM Unit :=
   else pure ()
 
 end Mutagen
+
+namespace Mutagen
+
+/-- the pattern every in-place saver uses: make the old region `[off, off+old)` as large as the
+new content, then overwrite it (`resize_bytes; seek; write`) -/
+def replaceRegion (B : Nat) (off old : Nat) (new : Bytes) : FileM Unit := do
+  resizeBytes B old new.length off
+  fseek off
+  fwrite new
+
+end Mutagen
